@@ -319,9 +319,38 @@ def check_no_blocking(ctx):
     ctx.unit('functions_reached', len(seen))
 
 
+def check_removes_own_files_only(ctx, model):
+    """under any interleaving: a definition removes nothing another live definition still needs.
+    What it may remove: the bytecode next to the module it just published, its own temporary"""
+    rule = 'R10-removes-only-its-own'
+    fi = model.fi if hasattr(model, 'fi') else ctx.repo.cls('CodeGenerator').methods['generate_code']
+    seen = set()
+    for p in model.paths:
+        for ev in model.events(p):
+            if ev['ev'] != 'remove':
+                continue
+            pth = ev['path']
+            st = stmt_text(ev['eff'].node)[:100]
+            if st in seen:
+                continue
+            seen.add(st)
+            own = any(model.sym(n) and model.kind(n) == 'tmp' for n in ast.walk(pth))
+            pyc = (isinstance(pth, ast.Attribute) and pth.attr == '__cached__') or (isinstance(pth, ast.Call) and (call_name(pth) or '').endswith('cache_from_source')) \
+                or (isinstance(pth, ast.IfExp) and all((isinstance(a, ast.Attribute) and a.attr == '__cached__') or (call_name(a) or '').endswith('cache_from_source') for a in (pth.body, pth.orelse)))
+            if own or pyc:
+                ctx.holds(rule, fi, st, 'its own temporary file' if own else 'the bytecode of the module it published', ev['eff'].lineno, clause='C')
+            elif isinstance(pth, ast.Name) and pth.id.startswith('<item'):
+                ctx.violation(rule, fi, st, 'files found by listing the directory are removed: one of them can be the temporary file of a live writer that is about to publish it -- its definition then fails', ev['eff'].lineno, clause='C', witness=True)
+            else:
+                ctx.undecided(rule, fi, st + ' [%s]' % canon(pth)[:60], 'cannot see whose file this is', ev['eff'].lineno, clause='C')
+    if not seen:
+        ctx.holds(rule, fi, 'generate_code removes nothing', '', fi.node.lineno, clause='C')
+
+
 def check(ctx):
     model = CacheModel(ctx.repo, max_paths=max(ctx.max_paths, 65536))
     check_no_blocking(ctx)
+    check_removes_own_files_only(ctx, model)
     ctx.unit('functions')
     r = check_protocol(ctx, model, 'ATVR')
     ctx.unit('load_sites', r['loads'])
